@@ -47,9 +47,24 @@ var alphabet = []string{
 	"a", "d/", "d/a", ".wh.a", "d/.wh.a", "d/.wh..wh..opq", ".wh..wh..opq", ".wh.d", ".wh.",
 	".prefetch.landmark", "d/.prefetch.landmark", ".no.prefetch.landmark",
 	"h=>a", "d/h=>d/a",
+	// second family (real character devices, directories whose own tar header carries an overlay
+	// opaque xattr as an archived overlayfs upper directory does):
+	"c", ".wh.c", "d/c", "d/.wh.c", "o/", "o/a", "p/", "p/a",
 }
 
-const nBase = 12 // alphabet[:nBase] is enumerated; the rest only appears in extraLayers
+const (
+	nBase  = 12 // alphabet[:nBase] is the property's alphabet, enumerated exhaustively
+	x2From = 14 // alphabet[x2From:] is the second family, enumerated exhaustively on its own
+)
+
+// member attributes of the second family
+var (
+	charDevs  = map[string]bool{"c": true, "d/c": true} // character device 1:3, mode 0666 (a real device, not a whiteout)
+	dirXattrs = map[string]map[string]string{
+		"o/": {reftar.XattrOpaqueTrusted: "y", "user.other": "1"},
+		"p/": {reftar.XattrOpaqueUser: "y"},
+	}
+)
 
 // extraLayers are hand-picked layers with hard links (inode sharing, clause 3).
 var extraLayers = []spec{{0, 12}, {2, 13}, {0, 2, 12}, {0, 3, 12}, {2, 5, 13}}
@@ -67,7 +82,7 @@ func (s spec) String() string {
 
 func (s spec) special() bool {
 	for _, i := range s {
-		if strings.Contains(alphabet[i], ".wh.") || strings.Contains(alphabet[i], "landmark") {
+		if strings.Contains(alphabet[i], ".wh.") || strings.Contains(alphabet[i], "landmark") || charDevs[alphabet[i]] || dirXattrs[alphabet[i]] != nil {
 			return true
 		}
 	}
@@ -75,7 +90,12 @@ func (s spec) special() bool {
 }
 
 // allSpecs enumerates subsets of alphabet[:nBase] of size <= max, smallest first.
-func allSpecs(max int) []spec {
+func allSpecs(max int) []spec { return subsets(0, nBase, max) }
+
+// family2Specs enumerates the non-empty subsets of the second family of size <= max.
+func family2Specs(max int) []spec { return subsets(x2From, len(alphabet), max)[1:] }
+
+func subsets(from, to, max int) []spec {
 	var out []spec
 	for size := 0; size <= max; size++ {
 		var rec func(start int, cur spec)
@@ -84,11 +104,11 @@ func allSpecs(max int) []spec {
 				out = append(out, append(spec{}, cur...))
 				return
 			}
-			for i := start; i < nBase; i++ {
+			for i := start; i < to; i++ {
 				rec(i+1, append(cur, i))
 			}
 		}
-		rec(0, nil)
+		rec(from, nil)
 	}
 	return out
 }
@@ -106,9 +126,14 @@ func buildTar(s spec, pos int) []byte {
 		case strings.Contains(name, "=>"):
 			p := strings.SplitN(name, "=>", 2)
 			h.Name, h.Linkname, h.Typeflag = p[0], p[1], tar.TypeLink
+		case charDevs[name]:
+			h.Typeflag, h.Mode, h.Devmajor, h.Devminor = tar.TypeChar, 0o666, 1, 3
 		case strings.HasSuffix(name, "/"):
 			h.Typeflag, h.Mode = tar.TypeDir, 0o750
 			h.PAXRecords = map[string]string{"SCHILY.xattr.user.dirattr": fmt.Sprintf("L%d", pos)}
+			for k, v := range dirXattrs[name] {
+				h.PAXRecords["SCHILY.xattr."+k] = v
+			}
 		default:
 			h.Typeflag, h.Mode = tar.TypeReg, 0o640
 			if !strings.HasPrefix(path.Base(name), ".wh.") {
@@ -747,7 +772,7 @@ func appendUniq(l []string, s string) []string {
 // ---------------------------------------------------------------- parts
 
 func excluded(s spec) bool {
-	_, infos, err := reftar.ApplyLayers([][]byte{buildTar(s, 0)})
+	_, infos, err := reftar.ApplyLayers([][]byte{buildTar(s, 0)}, nil)
 	return err != nil || infos[0].WhiteoutOfDirInSameLayer
 }
 
@@ -779,6 +804,11 @@ func layersPart(tier string) runner.Part {
 			return res
 		}
 		specs := append(usableSpecs(tier), extraLayers...)
+		for _, s := range family2Specs(3) {
+			if !excluded(s) {
+				specs = append(specs, s)
+			}
+		}
 		for idx, s := range specs {
 			if idx%c.Of != c.Shard {
 				continue
@@ -935,7 +965,7 @@ func (w *world) checkStack(lo, up spec, store string, mode layer.OverlayOpaqueTy
 	}
 	bl, _ := w.get(lo, 0)
 	bu, _ := w.get(up, 1)
-	want, _, err := reftar.ApplyLayers([][]byte{bl.tarb, bu.tarb})
+	want, _, err := reftar.ApplyLayers([][]byte{bl.tarb, bu.tarb}, modeXattr[mode])
 	if err != nil {
 		res.Broken = fmt.Sprintf("reference refuses stack %v %v: %v", lo, up, err)
 		return false
@@ -948,7 +978,7 @@ func (w *world) checkStack(lo, up spec, store string, mode layer.OverlayOpaqueTy
 		v.add("stack-"+d.Class, shape, fmt.Sprintf("stack lower %s upper %s (store %s, opaque mode %s)\napplying the layer tars gives   %s\nmerging the served layers gives %s\n  lower served: %s\n  upper served: %s\n%s", describeTar(bl.tarb), describeTar(bu.tarb), store, modeNames[mode], want.Describe(), got.Describe(), tl.Describe(), tu.Describe(), d), id)
 	}
 	// non-trivial: the upper layer removed or replaced something of the lower layer
-	lower, _, _ := reftar.ApplyLayers([][]byte{bl.tarb})
+	lower, _, _ := reftar.ApplyLayers([][]byte{bl.tarb}, modeXattr[mode])
 	for p, e := range lower {
 		if g, ok := want[p]; !ok || (g.Mode&reftar.SIFMT != e.Mode&reftar.SIFMT) || !bytes.Equal(g.Content, e.Content) {
 			nontrivial = true
@@ -971,12 +1001,21 @@ func stacksPart(tier string) runner.Part {
 		if tier == "thorough" {
 			max = 3 // pairs of <=3-entry layers; <=4-entry layers are covered one at a time by "layers"
 		}
+		// two families of layers; every ordered pair within a family is a stack
 		var specs []spec
+		family := map[int]int{}
 		for _, s := range allSpecs(max) {
 			if !excluded(s) {
 				specs = append(specs, s)
 			}
 		}
+		for _, s := range family2Specs(3) {
+			if !excluded(s) {
+				family[len(specs)] = 2
+				specs = append(specs, s)
+			}
+		}
+		nstacks := 0
 		// this shard owns the lower layers with index%Of == Shard and pairs them with every upper layer
 		for li, lo := range specs {
 			if li%c.Of != c.Shard {
@@ -986,7 +1025,11 @@ func stacksPart(tier string) runner.Part {
 				res.Caps = appendUniq(res.Caps, "time budget (stacks)")
 				break
 			}
-			for _, up := range specs {
+			for ui, up := range specs {
+				if family[ui] != family[li] {
+					continue
+				}
+				nstacks++
 				res.States++
 				nt := false
 				for _, st := range stores {
@@ -1009,7 +1052,7 @@ func stacksPart(tier string) runner.Part {
 				res.Samples = append(res.Samples, map[string]any{"lower": lo.String(), "uppers": len(specs)})
 			}
 		}
-		res.Extra = map[string]any{"layers": len(specs), "stacks": len(specs) * len(specs)}
+		res.Extra = map[string]any{"layers": len(specs), "stacks_in_this_shard": nstacks}
 		return res
 	}, Replay: func(c *runner.Ctx, raw json.RawMessage) (string, error) { return replay(c, raw) }}
 }
@@ -1019,13 +1062,13 @@ func main() {
 	runner.Main(runner.Check{
 		ID:    "C07",
 		Level: "exploration",
-		Rule: "layers: every layer of <=3 (thorough 4) members over {a, d/, d/a, .wh.a, d/.wh.a, d/.wh..wh..opq, .wh..wh..opq, .wh.d, '.wh.', .prefetch.landmark, d/.prefetch.landmark, .no.prefetch.landmark} (minus layers with a whiteout and a directory of one name; plus 5 fixed hard-link layers) is built with estargz.Build and served by the real node.go over {memory, db} metadata x {trusted,user,all} opaque mode; the served tree (READDIR/LOOKUP/GETATTR/LISTXATTR/GETXATTR/READ through go-fuse's raw bridge) must equal the statement's translation of the tar computed by an archive/tar reference; every call order of {READDIR, LOOKUP(x)} up to length 3 (thorough: 4 for layers of <=3 members) per directory on a fresh root must answer each call like a fresh node does. " +
-			"stacks: for every ordered pair of layers, overlayfs-merge(served lower, served upper) must equal OCI-apply(lower tar, upper tar). " +
+		Rule: "layers: every layer of <=3 (thorough 4) members over {a, d/, d/a, .wh.a, d/.wh.a, d/.wh..wh..opq, .wh..wh..opq, .wh.d, '.wh.', .prefetch.landmark, d/.prefetch.landmark, .no.prefetch.landmark} (minus layers with a whiteout and a directory of one name; plus 5 fixed hard-link layers; plus every layer of <=3 members over a second family {c = char device 1:3, .wh.c, d/c, d/.wh.c, o/ with own xattr trusted.overlay.opaque=y + user.other, o/a, p/ with own xattr user.overlay.opaque=y, p/a}) is built with estargz.Build and served by the real node.go over {memory, db} metadata x {trusted,user,all} opaque mode; the served tree (READDIR/LOOKUP/GETATTR/LISTXATTR/GETXATTR/READ through go-fuse's raw bridge) must equal the statement's translation of the tar computed by an archive/tar reference; every call order of {READDIR, LOOKUP(x)} up to length 3 (thorough: 4 for layers of <=3 members) per directory on a fresh root must answer each call like a fresh node does. " +
+			"stacks: for every ordered pair of layers within a family, overlayfs-merge(served lower, served upper) must equal OCI-apply(lower tar, upper tar). " +
 			"non-trivial = layer with a whiteout/opaque/landmark member; call order in which a LOOKUP follows a READDIR (memoised listing consulted); stack whose upper layer deletes or replaces something of the lower layer",
 		Assumptions: []string{
 			"layers are served from an in-memory blob with a stub remote.Blob behind the state file (FetchedSize fixed at 5); the remote path is C02/C06 business",
 			"the kernel's overlayfs is modelled by lib/reftar.MergeLower (lookup rules of Documentation/filesystems/overlayfs.rst); the model honours the opaque xattr on a layer root as well",
-			"OCI application follows the image-layer spec: whiteouts act on lower layers only, whatever the member order",
+			"OCI application follows the image-layer spec: whiteouts act on lower layers only, whatever the member order; a directory member whose own header carries the configured overlay opaque xattr = y is opaque like a marker directory (archived overlayfs upper dir)",
 			"attributes of synthesised whiteout devices other than type and rdev, and attributes of implicit directories, are not compared",
 		},
 		QuickBudget: 4 * time.Minute, ThoroughBudget: 30 * time.Minute,
